@@ -121,7 +121,7 @@ theorem replay_loop (o : List Ret) : ∀ (file buf : List Nat) (owed : Option Na
       match loop o file buf with
       | .done _ _ => .ok (loops + 1) (bytes + buf.length)
       | .died _ l => .aborted (i + l.length - 1) true
-      | .running _ r _ => match owed with | none => (if o.isEmpty then .ok loops bytes else .unfinished r.length) | some w => .unfinished r.length := by
+      | .running _ r _ => match owed with | none => (if o.isEmpty then .ok loops bytes else .unfinished r.length) | some _ => .unfinished r.length := by
   induction o with
   | nil =>
     intro file buf owed i loops bytes ho hl
@@ -159,7 +159,7 @@ theorem replay_loop (o : List Ret) : ∀ (file buf : List Nat) (owed : Option Na
           rw [hr] at this
           rw [this]
           cases hq : loop (r2 :: rest2) (file ++ buf.take (min k buf.length)) (buf.drop (min k buf.length)) with
-          | done f l => simp [Out.cons, hlen]; omega
+          | done f l => simp [Out.cons]; omega
           | died f l => simp [Out.cons]; try omega
           | running f r l => simp [Out.cons]; rcases ho with rfl | rfl <;> simp
 
